@@ -19,6 +19,7 @@ pub mod mega;
 pub mod meta;
 pub mod values;
 pub mod stmt;
+pub mod recover;
 
 pub fn run(prop: &str, ctx: &Ctx) -> Option<Report> {
     Some(match prop {
